@@ -30,10 +30,10 @@ def run_case(case, rng):
     fam = rng.choice(["any", "proper", "proper"])
     n_max = 12 if case.tier == "thorough" and rng.random() < 0.3 else 7
     if fam == "any":
-        sp = G.random_spec(rng, "any", n_max=n_max, reward_scale=rng.choice([1.0, 1.0, 1.0, 30.0, 1000.0]))
+        sp = G.random_spec(rng, "any", n_max=n_max, reward_scale=rng.choice([1.0, 1.0, 1.0, 30.0, 1000.0, 1e7, 1e9]))
     else:
         sp = G.random_spec(rng, "proper", n_max=n_max, allow_implicit=False,
-                           reward_scale=rng.choice([1.0, 1.0, 1.0, 30.0, 1000.0]))
+                           reward_scale=rng.choice([1.0, 1.0, 1.0, 30.0, 1000.0, 1e7, 1e9]))
     rep = rng.choice(["subclass", "quicktabular", "subclass", "quicktabular", "dsp_override", "quick_override"])
     if rng.random() < 0.15:
         # None is a legal hashable action label for a planner (it only collides with the roll-out API's "no action")
